@@ -35,6 +35,7 @@ type Config struct {
 	Prefix        []Decision // concrete/replay mode: scheduler and choice decisions
 	WallBudget    time.Duration
 	FallbackMs    int
+	NoSleepSets   bool
 }
 
 func DefaultConfig() Config {
@@ -384,7 +385,7 @@ func (ex *Explorer) merge(res *HarnessResult, pr *PathResult) {
 		}
 	}
 	switch pr.End.kind {
-	case "done", "assume", "assert-failed":
+	case "done", "assume", "assert-failed", "sleepset":
 	case "infeasible":
 	default:
 		msg := pr.End.kind + ": " + pr.End.msg
